@@ -15,6 +15,12 @@ sub-object slots b, c).  A history is a sequence of operations from
     lsa(k)         assign a fresh value to the k-th dependency leaf on the attached object
     lsd(k)         assign the corresponding leaf on the most recently detached object
     rdd(slot)      replace a sub-object of the most recently detached intermediate object
+    atd(slot, n)   put a fresh sub-tree of only n levels into an empty slot (the levels below stay
+                   None): together with att this gives every top-down / bottom-up / mixed order of
+                   attaching the missing levels of a path
+    bad(slot)      FAULT: put an object that LACKS the depended-on parameters / sub-object slots
+                   (class N) into the slot; the real assignment stores the value and then raises
+                   while the dependency is re-resolved
 
 The oracle is a shadow model written from the property statement: before and after every
 operation the value reached through each dependency path is computed on the shadow
@@ -29,6 +35,17 @@ operation the value reached through each dependency path is computed on the shad
 and after every operation the watcher tables of every object ever created that is no longer
 reachable from the top object through the current paths must be empty (the test installs no
 watcher of its own, so whatever is found there was installed on the parent's behalf).
+
+Initial states: all slots attached ('full'), all empty ('empty'), and 'hole:<slot>' (everything
+attached except the sub-tree at <slot>, which is None) for every slot below the first level.
+The depth-3 configurations ('a.b.c.x', ...) additionally run, from every initial state, every
+order of filling the missing levels (att / atd) followed by ALL histories of the stated length.
+
+Faults (bad): while an object of class N sits on a path ("fault mode": the path cannot be
+resolved, every re-binding raises) nothing is claimed about calls caused by ATTACHED objects
+(0..1); operations on detached objects must still cause 0 calls and detached objects must keep
+no watcher; once the faulty object has been replaced by a valid one (att / rat / det) the normal
+expectations apply again.
 """
 import itertools
 import logging
@@ -54,6 +71,8 @@ CONFIGS = [
     ('a.b.x', 'a.c.x'),
     ('a.b.x', 'a.c.y'),
     ('a.b.param',),
+    ('a.b.c.x',),
+    ('a.b.c.x', 'a.b.y'),
 ]
 
 CLASSES_SRC = '''import logging, warnings
@@ -69,6 +88,8 @@ class M(param.Parameterized):
     y = param.Integer(0)
     b = param.Parameter(None)
     c = param.Parameter(None)
+class N(param.Parameterized):
+    z = param.Integer(0)
 class T(param.Parameterized):
     a = param.Parameter(None)
     c = param.Parameter(None)
@@ -126,7 +147,17 @@ class Cfg:
         for s in self.slots:
             if '.' in s:
                 ops.append(('rdd', s))
+        # number of levels of the sub-tree below (and including) a slot
+        self.levels = {s: 1 + max(t.count('.') for t in self.slots if t == s or t.startswith(s + '.')) - s.count('.')
+                       for s in self.slots}
+        self.depth = max(self.levels.values())
+        for s in self.slots:
+            for n in range(1, self.levels[s]):
+                ops.append(('atd', s, n))
+        for s in self.slots:
+            ops.append(('bad', s))
         self.ops = ops
+        self.inits = ['full', 'empty'] + ['hole:' + s for s in self.slots if '.' in s]
 
     def children(self, slot):
         return [t for t in self.slots if t.startswith(slot + '.') and t.count('.') == slot.count('.') + 1]
@@ -154,31 +185,39 @@ class Model:
         self.instrs = []
         self.fresh = 10
         kw = {}
-        if init == 'full':
+        if init != 'empty':
+            hole = init[5:] if init.startswith('hole:') else None
             for s in cfg.slots:
                 if '.' not in s:
-                    kw[s] = self.new_tree(s, {})
+                    kw[s] = self.new_tree(s, {}, hole=hole)
                     self.top[s] = kw[s]
         self.instrs.append(('top', kw))
 
     # -- construction of sub-trees
-    def new_obj(self, role, vals, sub):
+    def new_obj(self, role, vals, sub, bad=False):
         idx = len(self.objs)
-        cls = self.cfg.slot_cls[role]
-        self.objs.append({'cls': cls, 'vals': dict(vals), 'sub': dict(sub), 'role': role})
+        cls = 'N' if bad else self.cfg.slot_cls[role]
+        self.objs.append({'cls': cls, 'vals': dict(vals), 'sub': dict(sub), 'role': role, 'bad': bad})
         self.instrs.append(('new', idx, cls, dict(vals), dict(sub)))
         return idx
 
-    def new_tree(self, slot, leafvals):
-        """fresh sub-tree for `slot`; leafvals: {(owner slot, pname): value} (default 0)"""
+    def new_tree(self, slot, leafvals, levels=None, hole=None):
+        """fresh sub-tree for `slot`; leafvals: {(owner slot, pname): value} (default 0);
+        levels: number of levels built (None = all; the slots below stay None); hole: a slot
+        that is left None together with everything below it"""
         sub = {}
         for ch in self.cfg.children(slot):
-            sub[ch.split('.')[-1]] = self.new_tree(ch, leafvals)
+            if ch == hole or (levels is not None and levels <= 1):
+                sub[ch.split('.')[-1]] = None
+            else:
+                sub[ch.split('.')[-1]] = self.new_tree(ch, leafvals, None if levels is None else levels - 1, hole)
         vals = {p: leafvals.get((slot, p), 0) for p in ('x', 'y')}
         return self.new_obj(slot, vals, sub)
 
     def tree_vals(self, slot, idx, out):
         o = self.objs[idx]
+        if o['bad']:
+            return out
         for p in ('x', 'y'):
             out[(slot, p)] = o['vals'][p]
         for ch in self.cfg.children(slot):
@@ -190,6 +229,8 @@ class Model:
     def copy_tree(self, slot, idx, override):
         """deep copy of the sub-tree rooted at object idx (keeping None sub-slots None)"""
         o = self.objs[idx]
+        if o['bad']:
+            return self.new_obj(slot, {}, {}, bad=True)
         sub = {}
         for ch in self.cfg.children(slot):
             j = o['sub'].get(ch.split('.')[-1])
@@ -198,10 +239,8 @@ class Model:
         return self.new_obj(slot, vals, sub)
 
     # -- resolution
-    def at(self, slot):
-        """index of the object currently at slot ('' -> 'top'), or None"""
-        if slot == '':
-            return 'top'
+    def raw_at(self, slot):
+        """index of the object currently stored at slot (a faulty object included), or None"""
         parts = slot.split('.')
         cur = self.top.get(parts[0])
         for p in parts[1:]:
@@ -209,6 +248,25 @@ class Model:
                 return None
             cur = self.objs[cur]['sub'].get(p)
         return cur
+
+    def at(self, slot):
+        """index of the object currently at slot ('' -> 'top'), or None; a faulty object (class N)
+        does not resolve: the slot counts as unresolved, like a hole"""
+        if slot == '':
+            return 'top'
+        parts = slot.split('.')
+        cur = self.top.get(parts[0])
+        for p in parts[1:]:
+            if cur is None or self.objs[cur]['bad']:
+                return None
+            cur = self.objs[cur]['sub'].get(p)
+        if cur is not None and self.objs[cur]['bad']:
+            return None
+        return cur
+
+    def faulty(self):
+        """True while an object of class N is attached somewhere along the current paths"""
+        return any(self.objs[i]['bad'] for i in self.reachable())
 
     def parent_resolves(self, slot):
         par = '.'.join(slot.split('.')[:-1])
@@ -246,17 +304,24 @@ class Model:
 
     def last_detached(self, role):
         for idx in reversed(self.detached):
-            if self.objs[idx]['role'] == role:
+            if self.objs[idx]['role'] == role and not self.objs[idx]['bad']:
                 return idx
         return None
 
     # -- operations
     def applicable(self, op):
         kind = op[0]
-        if kind == 'att':
+        if kind in ('att', 'atd'):
             return self.parent_resolves(op[1]) and self.at(op[1]) is None
-        if kind in ('req', 'det'):
+        if kind == 'bad':
+            if not self.parent_resolves(op[1]):
+                return False
+            cur = self.raw_at(op[1])
+            return cur is None or not self.objs[cur]['bad']
+        if kind == 'req':
             return self.at(op[1]) is not None
+        if kind == 'det':
+            return self.parent_resolves(op[1]) and self.raw_at(op[1]) is not None
         if kind == 'rat':
             return self.parent_resolves(op[1]) and self.last_detached(op[1]) is not None
         if kind == 'rdk':
@@ -292,6 +357,10 @@ class Model:
         on_detached = False
         if kind == 'att':
             self.set_slot(op[1], self.new_tree(op[1], {}))
+        elif kind == 'atd':
+            self.set_slot(op[1], self.new_tree(op[1], {}, levels=op[2]))
+        elif kind == 'bad':
+            self.set_slot(op[1], self.new_obj(op[1], {}, {}, bad=True))
         elif kind == 'req':
             self.set_slot(op[1], self.copy_tree(op[1], self.at(op[1]), {}))
         elif kind == 'rdk':
@@ -376,16 +445,19 @@ def watcher_count(obj):
     return n
 
 
-def expectation(specs, op, before, after, on_detached):
+def expectation(specs, op, before, after, on_detached, fault=False):
     """(lo, hi) calls for one operation -- see the module docstring.  A dependency whose path is
     unresolved before or after the operation carries no claim when the operation assigns a slot on
-    that path (the statement speaks about paths 'resolving both before and after')."""
+    that path (the statement speaks about paths 'resolving both before and after').  fault: an
+    object lacking the depended-on parameter is attached before or after the operation."""
     if on_detached:
         return (0, 0)
+    if fault:
+        return (0, 1)
     changed = any(b != UNRES and a != UNRES and a != b for b, a in zip(before, after))
     if changed:
         return (1, 1)
-    touched = op[1] if op[0] in ('att', 'req', 'rdk', 'det', 'rat') else None
+    touched = op[1] if op[0] in ('att', 'atd', 'bad', 'req', 'rdk', 'det', 'rat') else None
     if touched is not None:
         for s, b, a in zip(specs, before, after):
             if (b == UNRES or a == UNRES) and (s + '.').startswith(touched + '.'):
@@ -421,11 +493,14 @@ def run_history(specs, init, hist):
     done = len(m.instrs)
     viols = []
     raised = []
+    nfaultraise = 0
     steps = 0
     for i, op in enumerate(hist):
         before = m.reached()
+        fault = m.faulty()
         on_det = m.apply(op)
         after = m.reached()
+        fault = fault or m.faulty()
         new = m.instrs[done:]
         done = len(m.instrs)
         for ins in new[:-1]:
@@ -435,8 +510,10 @@ def run_history(specs, init, hist):
             execute(new[-1], env, ns)
         except Exception as e:          # the real setter raised: recorded, the history goes on
             raised.append((i, type(e).__name__))
+            if fault:
+                nfaultraise += 1
         got = len(LOG)
-        lo, hi = expectation(specs, op, before, after, on_det)
+        lo, hi = expectation(specs, op, before, after, on_det, fault)
         steps += 1
         if not (lo <= got <= hi):
             if on_det:
@@ -448,7 +525,8 @@ def run_history(specs, init, hist):
             else:
                 kind, clause = 'multiple', 'C07/fires exactly once iff reached value changes'
             viols.append(dict(specs=specs, init=init, hist=tuple(hist[:i + 1]), kind=kind, clause=clause,
-                              got=got, lo=lo, hi=hi, before=before, after=after, raised=tuple(raised)))
+                              got=got, lo=lo, hi=hi, before=before, after=after, raised=tuple(raised),
+                              fault=fault))
         reach = m.reachable()
         leaks = [(idx, watcher_count(env[idx])) for idx in range(len(m.objs)) if idx not in reach]
         leaks = [(idx, n) for idx, n in leaks if n]
@@ -456,8 +534,8 @@ def run_history(specs, init, hist):
             viols.append(dict(specs=specs, init=init, hist=tuple(hist[:i + 1]), kind='leak',
                               clause='C07/detached objects keep no watcher', got=leaks[0][1], lo=0, hi=0,
                               leak_role=m.objs[leaks[0][0]]['role'], leak_idx=leaks[0][0],
-                              before=before, after=after, raised=tuple(raised)))
-    return steps, viols, raised
+                              before=before, after=after, raised=tuple(raised), fault=fault))
+    return steps, viols, raised, nfaultraise
 
 
 def histories(cfg, init, k, start=()):
@@ -483,14 +561,34 @@ def histories(cfg, init, k, start=()):
     return out
 
 
+def fills(cfg, init):
+    """every order of attaching the missing levels (att: a complete sub-tree built bottom-up and
+    attached in one step; atd: only the upper n levels, the rest attached afterwards, top-down)
+    that leads from the initial state to a completely attached configuration"""
+    out = []
+
+    def rec(prefix):
+        m = Model(cfg, init)
+        for op in prefix:
+            m.apply(op)
+        ops = [op for op in cfg.ops if op[0] in ('att', 'atd') and m.applicable(op)]
+        if not ops:
+            out.append(tuple(prefix))
+            return
+        for op in ops:
+            rec(prefix + [op])
+    rec([])
+    return out
+
+
 def run_chunk(tasks):
     """tasks: (specs, init, prefix, k) -- expands the prefix to all histories of length k and runs them"""
     res = []
     for specs, init, prefix, k in tasks:
         cfg = Cfg(specs)
         for h in histories(cfg, init, k, prefix):
-            steps, viols, raised = run_history(specs, init, h)
-            res.append((specs, init, h, steps, viols, raised))
+            steps, viols, raised, nfr = run_history(specs, init, h)
+            res.append((specs, init, h, steps, viols, raised, nfr))
     return res
 
 
@@ -558,33 +656,49 @@ def confirm(src):
 
 def _run(tier, seed):
     k = {'quick': 3, 'thorough': 4}[tier]
+    kx = k - 1          # operations after a completed fill (depth-3 configurations)
     B = Bounded(
         "C07",
-        rule=("%d dependency sets (depth 1-2, one or two leaves under the same or different sub-objects, "
+        rule=("%d dependency sets (depth 1-3, one or two leaves under the same or different sub-objects, "
               "'a.param', 'a.b.param', a direct parameter next to a path) x initial state {all slots "
-              "attached, all empty} x ALL applicable histories of the operations att/req/rdk/det/rat (every "
-              "slot, every leaf), lsa/lsd (every leaf), rdd; after every step: number of calls vs the "
-              "shadow model of the values reached through the current paths, and watcher tables of all "
+              "attached, all empty, a hole (None) at any one level below the first} x ALL applicable "
+              "histories of the operations att/atd (complete / upper-levels-only sub-tree into an empty "
+              "slot)/req/rdk/det/rat (every slot, every leaf), lsa/lsd (every leaf), rdd, bad (FAULT: an "
+              "object lacking the depended-on parameter is attached, the assignment raises); depth-3 "
+              "sets additionally: every order of filling the missing levels top-down / bottom-up / mixed "
+              "from every initial state, followed by all histories; after every step: number of calls vs "
+              "the shadow model of the values reached through the current paths, and watcher tables of all "
               "objects no longer reachable. A case = (dependency set, initial state, history of maximal "
               "length); all shorter histories are its prefixes and are checked step by step"
               % len(CONFIGS)),
-        bound="histories of length <= %d; path depth <= 2; <= 2 dependency leaves (4 for 'param')" % k)
+        bound=("histories of length <= %d (depth-3 sets: fill sequence of <= 3 attachments + %d further "
+               "operations); path depth <= 3; <= 2 dependency leaves (4 for 'param'); <= 1 faulty object "
+               "per slot at a time" % (k, kx)))
     warnings.simplefilter('ignore')
     tasks = []
+    nfill = 0
     for specs in CONFIGS:
         cfg = Cfg(specs)
-        for init in ('full', 'empty'):
+        for init in cfg.inits:
             for h in histories(cfg, init, min(2, k)):
                 tasks.append((specs, init, h, k))
+            if cfg.depth >= 3:
+                for fill in fills(cfg, init):
+                    if len(fill) + kx <= k:
+                        continue        # contained in the histories of length k above
+                    nfill += 1
+                    for h in histories(cfg, init, len(fill) + 1, fill):
+                        tasks.append((specs, init, h, len(fill) + kx))
     nchunk = 256
     chunks = [tasks[i::nchunk] for i in range(nchunk)]
     allv = []
     raisers = {}
     samples = []
+    nfaultraise = 0
     with ProcessPoolExecutor(max_workers=min(16, os.cpu_count() or 4)) as ex:
         futs = [ex.submit(run_chunk, c) for c in chunks if c]
         for fu in futs:
-            for specs, init, h, steps, viols, raised in fu.result():
+            for specs, init, h, steps, viols, raised, nfr in fu.result():
                 B.case(key='deps=%s init=%s hist=%s' % ('+'.join(specs), init, ';'.join(op_str(o) for o in h)))
                 B.checked('C07/fires exactly once iff reached value changes', steps)
                 B.checked('C07/never because of a detached object',
@@ -592,7 +706,10 @@ def _run(tier, seed):
                 B.checked('C07/detached objects keep no watcher', steps)
                 if B.evaluations % 9973 == 1:
                     samples.append((specs, init, h))
+                nfaultraise += nfr
                 for i, exc in raised:
+                    if any(o[0] == 'bad' for o in h[:i + 1]):
+                        continue        # raised by / after an injected fault: summarised in one note
                     rk = (specs, op_str(h[i]), exc)
                     if rk not in raisers or len(h[:i + 1]) < len(raisers[rk][1]):
                         raisers[rk] = (init, h[:i + 1])
@@ -600,29 +717,49 @@ def _run(tier, seed):
     # ---- one representative (shortest history) per class of failing step:
     #      (clause, dependency set, kind, class of the failing operation, indices of the dependencies
     #      whose reached value changed in that step); everything after a raising assignment is one class
+    #      -- unless the very same failing step also fails in a history without any raise or fault
+    #      (then these are irrelevant and the case is counted there).  Failures at / after an INJECTED
+    #      fault (bad) are one class per (clause, kind, level of the faulty object, fault still present /
+    #      cleared), over all dependency sets.
     def vclass(v):
+        """(class key, fallback key or None)"""
         op = v['hist'][-1]
-        if v['raised'] and v['raised'][0][0] < len(v['hist']) - 1:
-            i, exc = v['raised'][0]
-            return (v['clause'], v['specs'], v['kind'], 'after ' + op_str(v['hist'][i]) + '!' + exc)
         changed = tuple(i for i, (b, a) in enumerate(zip(v['before'], v['after'])) if b != a)
-        if op[0] in ('req', 'rdk', 'rat', 'att', 'det'):
+        if op[0] in ('req', 'rdk', 'rat', 'att', 'det', 'atd'):
             oc = 'assign(%s)' % op[1]
         else:
             oc = op_str(op)
-        return (v['clause'], v['specs'], v['kind'], oc, changed)
+        normal = (v['clause'], v['specs'], v['kind'], oc, changed)
+        bops = [o for o in v['hist'] if o[0] == 'bad']
+        if bops:
+            return normal, (v['clause'], None, v['kind'], 'fault@%d:%s' % (
+                bops[0][1].count('.') + 1, 'present' if v.get('fault') else 'cleared'))
+        if v['raised'] and v['raised'][0][0] < len(v['hist']) - 1:
+            i, exc = v['raised'][0]
+            return normal, (v['clause'], v['specs'], v['kind'], 'after ' + op_str(v['hist'][i]) + '!' + exc)
+        return normal, None
     groups = {}
+    later = []
     for v in allv:
-        groups.setdefault(vclass(v), []).append(v)
+        key, fallback = vclass(v)
+        if fallback is None:
+            groups.setdefault(key, []).append(v)
+        else:
+            later.append((key, fallback, v))
+    pure = set(groups)
+    for key, fallback, v in later:
+        groups.setdefault(key if key in pure else fallback, []).append(v)
     reports = []
     for key in groups:
-        cfg = Cfg(key[1])
-        rep = min(groups[key], key=lambda v: (len(v['hist']), v['init'] != 'full',
-                                              [cfg.ops.index(o) for o in v['hist']]))
+        rep = min(groups[key], key=lambda v: (bool(v['raised']), len(v['hist']), CONFIGS.index(v['specs']),
+                                              v['init'] != 'full',
+                                              [Cfg(v['specs']).ops.index(o) for o in v['hist']]))
         witness = 'deps=%s init=%s hist=%s kind=%s changed=%s got=%d want=%s' % (
             '+'.join(rep['specs']), rep['init'], hist_str(rep['hist'], rep['raised']), rep['kind'],
             ','.join(str(i) for i, (b, a) in enumerate(zip(rep['before'], rep['after'])) if b != a) or '-',
             rep['got'], ('%d' % rep['lo']) if rep['lo'] == rep['hi'] else '%d..%d' % (rep['lo'], rep['hi']))
+        if key[1] is None:
+            witness += ' class=' + key[3]       # at / after an injected fault: one class over all dependency sets
         detail = 'values reached before %r after %r; %d failing histories in this class' % (
             rep['before'], rep['after'], len(groups[key]))
         reports.append((rep['clause'], witness, replay_of(rep, rep['clause'], witness), len(groups[key]), detail,
@@ -645,6 +782,9 @@ def _run(tier, seed):
     for clause, n in sorted(per_clause.items()):
         if n > MAX_PER_CLAUSE:
             B.note('%s: %d further witness classes suppressed (cap %d per clause)' % (clause, n - MAX_PER_CLAUSE, MAX_PER_CLAUSE))
+    if nfaultraise:
+        B.note('%d assignments raised while an injected faulty object (bad) was attached (expected: the '
+               'dependency cannot be resolved); the histories continued' % nfaultraise)
     for (specs, ops, exc), (init, h) in sorted(raisers.items()):
         B.note('assignment raised %s (recorded, history continued; reported only through later miscounts): '
                'deps=%s op=%s shortest: init=%s hist=%s' % (exc, '+'.join(specs), ops, init, hist_str(h)))
